@@ -229,6 +229,18 @@ func (p *Program) OwnFunctions() []*ssa.Function {
 	return out
 }
 
+// Skipped says whether fn (or its outermost enclosing function) is a dead new helper that is not
+// analysed on its own (see Skip).
+func (p *Program) Skipped(fn *ssa.Function) bool {
+	if len(p.Skip) == 0 || p.RawID == nil || fn == nil {
+		return false
+	}
+	for fn.Parent() != nil {
+		fn = fn.Parent()
+	}
+	return p.Skip[p.RawID(fn)]
+}
+
 // Pos renders a position relative to the repository directory.
 func (p *Program) Pos(pos token.Pos) string {
 	if !pos.IsValid() {
